@@ -672,7 +672,53 @@ impl<'a> Gen<'a> {
                 let mut tries = 0;
                 while out.len() < n && tries < 40 {
                     tries += 1;
+                    // a family of consecutive rules that differ only in their input sequence: one marked glyph, then the same
+                    // context around a longer input (or the other way round), as `ignore` rules or with the same named lookup
+                    if self.rng.chance(1, 4) {
+                        let back = self.ctx_seq(1);
+                        let look = self.ctx_seq(1);
+                        let usable: Vec<String> = self.named.iter()
+                            .filter(|(_, k)| matches!(k, Kind::Single | Kind::Multiple | Kind::Alternate))
+                            .map(|(n, _)| n.clone()).collect();
+                        let refs: Vec<String> = if usable.is_empty() || self.rng.chance(1, 2) { vec![] } else { vec![self.rng.pick(&usable).clone()] };
+                        let short = vec![self.gc()];
+                        let mut long = vec![self.gc()];
+                        for _ in 0..1 + self.rng.below(2) { long.push(self.gc()); }
+                        let mut fam = vec![short, long];
+                        if self.rng.chance(1, 3) { fam.swap(0, 1); }
+                        for inp in fam {
+                            if refs.is_empty() {
+                                out.push(Rule::Ignore(vec![(back.clone(), inp, look.clone())]));
+                            } else {
+                                let input = inp.into_iter().enumerate().map(|(i, g)| (g, if i == 0 { refs.clone() } else { vec![] })).collect();
+                                out.push(Rule::Chain { back: back.clone(), input, look: look.clone(), inline: Inline::None });
+                            }
+                        }
+                        continue;
+                    }
                     let mut r = self.chain_rule();
+                    // sibling of the previous rule: same backtrack, lookahead and lookups at the first position, another
+                    // first glyph and another input length (what `ContextRule::try_merge` has to tell apart)
+                    if self.rng.chance(1, 3) {
+                        match out.last().cloned() {
+                            Some(Rule::Chain { back, input, look, inline: Inline::None }) => {
+                                let mut inp = vec![(self.gc(), input[0].1.clone())];
+                                if input.len() == 1 || self.rng.chance(1, 3) {
+                                    for _ in 0..1 + self.rng.below(2) { inp.push((self.gc(), vec![])); }
+                                }
+                                r = Rule::Chain { back, input: inp, look, inline: Inline::None };
+                            }
+                            Some(Rule::Ignore(rs)) => {
+                                let (back, input, look) = rs.last().unwrap().clone();
+                                let mut inp = vec![self.gc()];
+                                if input.len() == 1 || self.rng.chance(1, 3) {
+                                    for _ in 0..1 + self.rng.below(2) { inp.push(self.gc()); }
+                                }
+                                r = Rule::Ignore(vec![(back, inp, look)]);
+                            }
+                            _ => {}
+                        }
+                    }
                     // colliding inline rules (only where they are allowed to collide)
                     if self.opts.free_inline && self.rng.chance(1, 2) {
                         let prev: Vec<Rule> = out.iter().filter(|r| matches!(r, Rule::Chain { inline: Inline::Single(_) | Inline::Lig(_), .. })).cloned().collect();
